@@ -666,6 +666,102 @@ def rule_templates(rep, idx):
         rep.add('R12', 'while:condition-values=%s' % script, ok, where + '::visitPost(WhileStatement&)', detail)
 
 
+def _is_leaf_expr(e):
+    return isinstance(e, Obj) and (e.cls in ('xcmp::VarRefExpr', 'xcmp::NumberExpr', 'xcmp::BooleanExpr', 'xcmp::StringExpr') or
+                                   e.fields.get('constValue') is not None)
+
+
+def actual_stores(M, first_slot, actuals):
+    """Linear register tracking over a call template up to the transfer of control.  Code for a sub-expression leaves its value in the
+    requested register; unless the sub-expression is a leaf (variable, constant, string: a load into that register only) it may
+    use the other register as well, so that register holds nothing afterwards.  Returns (list of problems, {slot: expression})."""
+    regs = {'A': None, 'B': None}
+    frame = {}
+    slots = {}
+    problems = []
+    for tk, d in M.instrs():
+        if tk == 'EXPR':
+            r = d.fields['reg']
+            e = d.fields['expr']
+            regs[r] = ('val', e)
+            if not _is_leaf_expr(e):
+                regs['B' if r == 'A' else 'A'] = None
+        elif tk in ('LDAM', 'LDBM') and d.cls == 'hexasm::InstrImm' and d.fields['immValue'].concrete() and d.fields['immValue'].lo == 1:
+            regs['A' if tk == 'LDAM' else 'B'] = 'SP'
+        elif tk in ('LDAC', 'LDBC'):
+            regs['A' if tk == 'LDAC' else 'B'] = ('const', d.fields.get('immValue'))
+        elif tk in ('LDAM', 'LDBM'):
+            regs['A' if tk == 'LDAM' else 'B'] = ('mem', None)
+        elif tk == 'STAI' and d.cls == 'hexasm::InstrImm':
+            k = d.fields['immValue'].lo if d.fields['immValue'].concrete() else None
+            if regs['B'] != 'SP':
+                problems.append('STAI %s stores an actual through breg, which does not hold the stack pointer there (breg = %s): the value lands at '
+                                'an address left over from the evaluation of the actual' % (k, 'undefined after a sub-expression' if regs['B'] is None else regs['B'][0]))
+            elif regs['A'] is None:
+                problems.append('STAI %s stores areg, which holds no value' % k)
+            else:
+                slots[k] = regs['A']
+        elif tk == 'STAI_FB':
+            if regs['B'] != 'SP':
+                problems.append('STAI_FB without the stack pointer in breg')
+            frame[repr(d.fields['offset'].aff)] = regs['A']
+        elif tk in ('LDAI_FB', 'LDBI_FB'):
+            r = 'A' if tk == 'LDAI_FB' else 'B'
+            if regs[r] != 'SP':
+                problems.append('%s without the stack pointer in its base register' % tk)
+            regs[r] = frame.get(repr(d.fields['offset'].aff))
+        elif tk in ('LDAP', 'BR', 'OPR', 'BRZ', 'BRN'):
+            break
+        elif tk in ('IDENTIFIER',) or d.cls == 'hexasm::Label':
+            continue
+        elif tk in ('LDAI', 'LDBI'):
+            r = 'A' if tk == 'LDAI' else 'B'
+            regs[r] = ('mem', None)
+    if first_slot is None:
+        first_slot = min(slots) if slots else 0      # the convention itself (formal i == actual i) is decided by C08-R1
+    for i, a in enumerate(actuals):
+        got = slots.get(first_slot + i)
+        if got is None:
+            if not any('STAI %d ' % (first_slot + i) in p_ or 'STAI %s ' % (first_slot + i) in p_ for p_ in problems):
+                problems.append('actual %d is never stored to sp[%d]' % (i, first_slot + i))
+        elif not (got[0] == 'val' and got[1] is a):
+            problems.append('sp[%d] receives %s instead of actual %d' % (first_slot + i, got[1].name if got[0] == 'val' else got[0], i))
+    return problems, slots
+
+
+def rule_call_registers(rep, idx, rid='R14'):
+    rep.rule(rid, 'call templates: each actual is stored to its outgoing slot sp[first+i] with the stack pointer freshly in breg -- breg is not '
+             'assumed to survive the code of a non-leaf actual (any operator or call may use both registers)', floor=20)
+    act_kinds = ('var', 'num', 'op', 'notop', 'call', 'andor')
+    for callkind, mk, first in (('func', lambda M, a: M.X.call('fn_a', a), 2), ('proc', lambda M, a: M.X.call('pr_a', a), 1),
+                                ('syscall', lambda M, a: M.X.syscall(1, a), 2)):
+        for kinds in itertools.chain(itertools.product(act_kinds, repeat=2), [('var', 'andor', 'var'), ('op', 'call', 'andor')]):
+            M = CodeGenModel(idx, 'A')
+            for n in ('a', 'b', 'c', "a'", "b'", "c'"):
+                M.symbol(n, 'VAR', 'f')
+            for n in ('fn_a', 'fn_b', 'fn_c'):
+                M.symbol(n, 'FUNC', '')
+            M.symbol('pr_a', 'PROC', '')
+            ok_ = dict(operand_kinds(M))
+            ok_['andor'] = lambda n: M.X.binop('OR', M.X.binop('EQ', M.X.var(n), M.X.num(1)), M.X.binop('EQ', M.X.var(n), M.X.num(2)))
+            actuals = [ok_[k](n) for k, n in zip(kinds, ('a', 'b', 'c'))]
+            node = mk(M, actuals)
+            key = '%s(%s)' % (callkind, ','.join(kinds))
+            where = 'xcmp.hpp xcmp::CodeBuffer::gen%sCall / genCallActuals / loadActuals' % {'func': 'Func', 'proc': 'Proc', 'syscall': 'Sys'}[callkind]
+            try:
+                M.X.visit_post(M.expr_visitor('A'), node)
+            except NeedSplit as e:
+                rep.undecided(rid, key, 'not uniform: %s' % e, where)
+                continue
+            except Thrown as e:
+                rep.add(rid, key, False, where, 'code generation fails: %s' % e.what)
+                continue
+            # the slot of actual 0 is read from the template (first STAI after the frame-relative saves), cross-checked with the convention
+            problems, slots = actual_stores(M, None, actuals)
+            rep.add(rid, key, not problems, where, '; '.join(problems)[:700] if problems else
+                    'actuals stored to sp[%s]; template %s' % (sorted(slots), [t for t, _ in M.instrs()][:24]))
+
+
 # --------------------------------------------------------------------------------------------------
 # R4 label namespace, R6 strings
 # --------------------------------------------------------------------------------------------------
@@ -748,6 +844,7 @@ def run(rep, tier):
     rule_frames(rep, idx)
     rule_strings(rep, idx)
     rule_templates(rep, idx)
+    rule_call_registers(rep, idx)
     # the expression optimiser preserves the X meaning (import of C07's rewrite-identity and fold rules)
     from . import c07
     c07.rule_rewrite(_Rename(rep, {'R2': 'R9'}), idx)
